@@ -5,10 +5,13 @@ package gen
 //
 //	txchange.go  const DustLimit
 //	input.go     const DefaultSequenceNumber
-//	tx.go        the hex literal decoded inside (*Tx).estimatedFinalTx (dummy P2PKH unlocking script)
+//	tx.go        the hex literal (*Tx).estimatedFinalTx decodes into the dummy P2PKH unlocking script (in the function, in a
+//	             package-level const/var it names, or in a package function it calls)
 //	fees.go      MiningFee{Satoshis,Bytes} of defaultStandardFee() / defaultDataFee()
 //
-// Any AST shape other than the ones spelled out here is an error (fail closed).
+// Shapes other than the ones spelled out at each extractor are an error (fail closed); the accepted shapes were widened
+// after three property-preserving refactors (literal hoisted to a package-level var / const, decoded once before the loop
+// and copied per input) made the first version refuse the source.
 
 import (
 	"encoding/hex"
@@ -91,87 +94,118 @@ func funcDecl(f *ast.File, name string) (*ast.FuncDecl, error) {
 	return found, nil
 }
 
-// dummyScript: inside estimatedFinalTx there must be exactly one call hex.DecodeString("<literal>"),
-// it must be the right-hand side of `dummyUnlockingScript, _ := ...`, and that variable must be what
-// bscript.NewFromBytes(...) is applied to when assigning in.UnlockingScript.
-func dummyScript(fset *token.FileSet, f *ast.File) ([]byte, error) {
+// dummyScript: the dummy P2PKH unlocking script estimatedFinalTx inserts. Accepted shapes (each met in a harmless
+// refactor of tx.go): the hex literal sits inside estimatedFinalTx, or in the initialiser of a package-level const /
+// var of the package that estimatedFinalTx (or a package function it calls directly) names, or inside such a called
+// function. A candidate is a string literal of at least 100 characters made of hex digits only. Exactly ONE distinct
+// candidate must be reachable that way (none, or two different ones, is an error: fail closed). How the decoded bytes
+// reach in.UnlockingScript (directly, through a private copy, ...) is NOT analysed here: the C11 correspondence
+// compares every estimate of the implementation with the model's, which uses this literal.
+func dummyScript(fset *token.FileSet, f *ast.File, pkgFiles []*ast.File) ([]byte, error) {
 	fd, err := funcDecl(f, "estimatedFinalTx")
 	if err != nil {
 		return nil, err
 	}
-	var lits []string
-	var lhs []string
-	var bad error
+	isHexLit := func(e ast.Expr) (string, bool) {
+		bl, ok := e.(*ast.BasicLit)
+		if !ok || bl.Kind != token.STRING {
+			return "", false
+		}
+		s, err := strconv.Unquote(bl.Value)
+		if err != nil || len(s) < 100 {
+			return "", false
+		}
+		for _, c := range s {
+			if !(c >= '0' && c <= '9' || c >= 'a' && c <= 'f' || c >= 'A' && c <= 'F') {
+				return "", false
+			}
+		}
+		return s, true
+	}
+	cands := map[string]bool{}
+	collect := func(n ast.Node) {
+		ast.Inspect(n, func(x ast.Node) bool {
+			if e, ok := x.(ast.Expr); ok {
+				if s, ok := isHexLit(e); ok {
+					cands[strings.ToLower(s)] = true
+				}
+			}
+			return true
+		})
+	}
+	// package-level declarations by name
+	pkgVals := map[string][]ast.Expr{}
+	pkgFuncs := map[string]*ast.FuncDecl{}
+	for _, pf := range pkgFiles {
+		for _, d := range pf.Decls {
+			switch x := d.(type) {
+			case *ast.GenDecl:
+				if x.Tok != token.CONST && x.Tok != token.VAR {
+					continue
+				}
+				for _, sp := range x.Specs {
+					vs := sp.(*ast.ValueSpec)
+					for _, n := range vs.Names {
+						pkgVals[n.Name] = append(pkgVals[n.Name], vs.Values...)
+					}
+				}
+			case *ast.FuncDecl:
+				if x.Recv == nil && x.Body != nil {
+					pkgFuncs[x.Name.Name] = x
+				}
+			}
+		}
+	}
+	visitBody := func(body *ast.BlockStmt, followCalls bool) {
+		collect(body)
+		ast.Inspect(body, func(x ast.Node) bool {
+			switch id := x.(type) {
+			case *ast.Ident:
+				for _, v := range pkgVals[id.Name] {
+					collect(v)
+				}
+			case *ast.CallExpr:
+				if fn, ok := id.Fun.(*ast.Ident); ok && followCalls {
+					if callee, ok := pkgFuncs[fn.Name]; ok {
+						collect(callee.Body)
+						ast.Inspect(callee.Body, func(y ast.Node) bool {
+							if i2, ok := y.(*ast.Ident); ok {
+								for _, v := range pkgVals[i2.Name] {
+									collect(v)
+								}
+							}
+							return true
+						})
+					}
+				}
+			}
+			return true
+		})
+	}
+	visitBody(fd.Body, true)
+	if len(cands) != 1 {
+		return nil, fmt.Errorf("estimatedFinalTx: expected exactly one dummy unlocking script (hex literal of >= 100 digits in the function, in a package-level const/var it names, or in a package function it calls), found %d", len(cands))
+	}
+	// the function must still install an unlocking script somewhere
+	assigns := 0
 	ast.Inspect(fd.Body, func(n ast.Node) bool {
-		as, ok := n.(*ast.AssignStmt)
-		if ok && len(as.Rhs) == 1 {
-			if call, ok := as.Rhs[0].(*ast.CallExpr); ok && isSel(call.Fun, "hex", "DecodeString") {
-				if len(call.Args) != 1 {
-					bad = fmt.Errorf("%s: hex.DecodeString with %d arguments", fset.Position(call.Pos()), len(call.Args))
-					return false
+		if as, ok := n.(*ast.AssignStmt); ok {
+			for _, l := range as.Lhs {
+				if sel, ok := l.(*ast.SelectorExpr); ok && sel.Sel.Name == "UnlockingScript" {
+					assigns++
 				}
-				bl, ok := call.Args[0].(*ast.BasicLit)
-				if !ok || bl.Kind != token.STRING {
-					bad = fmt.Errorf("%s: the dummy unlocking script is not a string literal", fset.Position(call.Pos()))
-					return false
-				}
-				s, err := strconv.Unquote(bl.Value)
-				if err != nil {
-					bad = err
-					return false
-				}
-				lits = append(lits, s)
-				if len(as.Lhs) != 2 {
-					bad = fmt.Errorf("%s: expected `v, _ := hex.DecodeString(...)`", fset.Position(as.Pos()))
-					return false
-				}
-				id, ok := as.Lhs[0].(*ast.Ident)
-				if !ok {
-					bad = fmt.Errorf("%s: expected an identifier on the left", fset.Position(as.Pos()))
-					return false
-				}
-				lhs = append(lhs, id.Name)
 			}
 		}
 		return true
 	})
-	if bad != nil {
-		return nil, bad
+	if assigns == 0 {
+		return nil, fmt.Errorf("estimatedFinalTx: no assignment to an UnlockingScript field")
 	}
-	if len(lits) != 1 {
-		return nil, fmt.Errorf("estimatedFinalTx: expected exactly one hex.DecodeString(\"...\") literal, found %d", len(lits))
+	var lit string
+	for k := range cands {
+		lit = k
 	}
-	// the decoded variable is what becomes the unlocking script
-	used := 0
-	ast.Inspect(fd.Body, func(n ast.Node) bool {
-		as, ok := n.(*ast.AssignStmt)
-		if !ok || len(as.Lhs) != 1 || len(as.Rhs) != 1 {
-			return true
-		}
-		sel, ok := as.Lhs[0].(*ast.SelectorExpr)
-		if !ok || sel.Sel.Name != "UnlockingScript" {
-			return true
-		}
-		call, ok := as.Rhs[0].(*ast.CallExpr)
-		if !ok || !isSel(call.Fun, "bscript", "NewFromBytes") || len(call.Args) != 1 {
-			bad = fmt.Errorf("%s: UnlockingScript is assigned something other than bscript.NewFromBytes(v)", fset.Position(as.Pos()))
-			return false
-		}
-		id, ok := call.Args[0].(*ast.Ident)
-		if !ok || id.Name != lhs[0] {
-			bad = fmt.Errorf("%s: UnlockingScript is not built from the decoded dummy literal", fset.Position(as.Pos()))
-			return false
-		}
-		used++
-		return true
-	})
-	if bad != nil {
-		return nil, bad
-	}
-	if used != 1 {
-		return nil, fmt.Errorf("estimatedFinalTx: expected exactly one assignment to UnlockingScript, found %d", used)
-	}
-	b, err := hex.DecodeString(lits[0])
+	b, err := hex.DecodeString(lit)
 	if err != nil {
 		return nil, fmt.Errorf("estimatedFinalTx: dummy unlocking script literal is not valid hex: %v", err)
 	}
@@ -187,30 +221,52 @@ func isSel(e ast.Expr, pkg, name string) bool {
 	return ok && id.Name == pkg
 }
 
-// miningFee reads `return &Fee{ ..., MiningFee: FeeUnit{Satoshis: <int>, Bytes: <int>}, ... }` of fn.
+// miningFee reads the MiningFee{Satoshis, Bytes} of the Fee that fn returns. Accepted shapes: the function body (or the
+// initialiser of a package-level var the function names) contains exactly ONE composite literal of type Fee (with or
+// without &), whose MiningFee field is a FeeUnit literal with integer literals. Anything else is an error. (Whether the
+// object is fresh per call is not this table's business: gen/Globals.v reports a package-level Fee that is handed out.)
 func miningFee(fset *token.FileSet, f *ast.File, fn string) (sat, byts uint64, err error) {
 	fd, err := funcDecl(f, fn)
 	if err != nil {
 		return 0, 0, err
 	}
-	if len(fd.Body.List) != 1 {
-		return 0, 0, fmt.Errorf("%s: expected a single return statement", fn)
+	var lits []*ast.CompositeLit
+	collect := func(n ast.Node) {
+		ast.Inspect(n, func(x ast.Node) bool {
+			if cl, ok := x.(*ast.CompositeLit); ok {
+				if id, ok := cl.Type.(*ast.Ident); ok && id.Name == "Fee" {
+					lits = append(lits, cl)
+				}
+			}
+			return true
+		})
 	}
-	rs, ok := fd.Body.List[0].(*ast.ReturnStmt)
-	if !ok || len(rs.Results) != 1 {
-		return 0, 0, fmt.Errorf("%s: expected `return &Fee{...}`", fn)
+	collect(fd.Body)
+	pkgVals := map[string][]ast.Expr{}
+	for _, d := range f.Decls {
+		if gd, ok := d.(*ast.GenDecl); ok && gd.Tok == token.VAR {
+			for _, sp := range gd.Specs {
+				vs := sp.(*ast.ValueSpec)
+				for i, n := range vs.Names {
+					if i < len(vs.Values) {
+						pkgVals[n.Name] = append(pkgVals[n.Name], vs.Values[i])
+					}
+				}
+			}
+		}
 	}
-	un, ok := rs.Results[0].(*ast.UnaryExpr)
-	if !ok || un.Op != token.AND {
-		return 0, 0, fmt.Errorf("%s: expected `return &Fee{...}`", fn)
+	ast.Inspect(fd.Body, func(x ast.Node) bool {
+		if id, ok := x.(*ast.Ident); ok {
+			for _, v := range pkgVals[id.Name] {
+				collect(v)
+			}
+		}
+		return true
+	})
+	if len(lits) != 1 {
+		return 0, 0, fmt.Errorf("%s: expected exactly one Fee{...} literal (in the function or in a package-level var it names), found %d", fn, len(lits))
 	}
-	cl, ok := un.X.(*ast.CompositeLit)
-	if !ok {
-		return 0, 0, fmt.Errorf("%s: expected a composite literal", fn)
-	}
-	if id, ok := cl.Type.(*ast.Ident); !ok || id.Name != "Fee" {
-		return 0, 0, fmt.Errorf("%s: expected a Fee literal", fn)
-	}
+	cl := lits[0]
 	seen := false
 	for _, el := range cl.Elts {
 		kv, ok := el.(*ast.KeyValueExpr)
@@ -258,14 +314,11 @@ func miningFee(fset *token.FileSet, f *ast.File, fn string) (sat, byts uint64, e
 			}
 			got[k2.Name] = v
 		}
-		if len(got) != 2 {
-			return 0, 0, fmt.Errorf("%s: FeeUnit literal must give exactly Satoshis and Bytes", fn)
-		}
 		var ok1, ok2 bool
 		sat, ok1 = got["Satoshis"]
 		byts, ok2 = got["Bytes"]
-		if !ok1 || !ok2 {
-			return 0, 0, fmt.Errorf("%s: FeeUnit literal must give Satoshis and Bytes", fn)
+		if len(got) != 2 || !ok1 || !ok2 {
+			return 0, 0, fmt.Errorf("%s: FeeUnit literal must give exactly Satoshis and Bytes", fn)
 		}
 	}
 	if !seen {
@@ -311,7 +364,13 @@ func genConsts(repo string) (string, error) {
 	if err != nil {
 		return "", err
 	}
-	dummy, err := dummyScript(fs3, f3)
+	var btFiles []*ast.File
+	for _, rel := range []string{"tx.go", "txinput.go", "txoutput.go", "txchange.go", "input.go", "output.go", "fees.go", "bytemanipulation.go"} {
+		if _, pf, e := ParseFile(repo, rel); e == nil {
+			btFiles = append(btFiles, pf)
+		}
+	}
+	dummy, err := dummyScript(fs3, f3, btFiles)
 	if err != nil {
 		return "", err
 	}
